@@ -14,6 +14,7 @@
 From Coq Require Import List String NArith ZArith Bool Permutation.
 From Piko Require Import Base.Maps Base.Strs Gossip.Types Gossip.Local Gossip.Apply Cluster.Syncer.
 From Piko Require Import GossipP.Valid NodeLoss.NodeLoss.
+From Piko Require Import NodeLoss.Backoff NodeLossP.BackoffP.
 From Piko Require Import NodeLossP.DecisionP NodeLossP.ShutdownP NodeLossP.LeaveP NodeLossP.RecoveryP NodeLossP.Examples.
 Import ListNotations.
 Open Scope string_scope. Open Scope list_scope.
@@ -170,6 +171,73 @@ Example C18_ex_recovery :
   (forall a sa, lookup a ex_cluster = Some sa -> served_from ex_cluster sa "e").
 Proof. exact (conj ex_settled ex_recovery). Qed.
 
+(* "upstream listeners reconnect to a surviving node" - how soon. The reconnection loop (client/upstream.go Upstream.connect)
+   waits between two dials for the time pkg/backoff hands out; NodeLoss/Backoff.v models Backoff() with the jitter as an
+   oracle (legal outcomes: base <= w <= 1.1*base + 1ns). For EVERY sequence of legal jitter outcomes, any number of calls:
+   the loop's backoff (retries = 0) never tells it to give up; every wait lies between min(min,max) and max + 10 % + 1ns;
+   consecutive waits at least double until they reach max. [partial: that time.After really sleeps that long and that a
+   dial to a reachable node succeeds is runtime behaviour, observed by harness/reconnect] *)
+Theorem C18_backoff_never_gives_up :
+  forall cmin cmax ws, (0 <= cmin)%Z -> (0 <= cmax)%Z -> ~ In None (backoff_run (connect_backoff cmin cmax) ws).
+Proof. intros cmin cmax ws A B. apply forever_never_aborts. exact (proj1 (proj2 (connect_backoff_ok cmin cmax A B))). Qed.
+
+Theorem C18_backoff_waits_bounded :
+  forall b ws w, bo_inv b -> legal_run b ws = true -> In (Some w) (backoff_run b ws) ->
+  (Z.min (bo_min b) (bo_max b) <= w <= bo_max b + bo_max b / 10 + 1)%Z.
+Proof. exact waits_bounded. Qed.
+
+Theorem C18_backoff_exponential :
+  forall b w1 w2 b1 b2,
+  bo_inv b -> valid_wait (base_wait b) w1 = true -> backoff_step b w1 = Some (b1, w1) ->
+  (0 < bo_min b)%Z -> (0 < bo_max b)%Z ->
+  valid_wait (base_wait b1) w2 = true -> backoff_step b1 w2 = Some (b2, w2) ->
+  (Z.min (2 * w1) (bo_max b) <= w2)%Z.
+Proof. exact consecutive_doubles. Qed.
+
+(* a backoff with a retry limit n > 0 grants exactly the calls 0..n and refuses every later one (the comment in the source
+   calls n "the maximum number of attempts"; it is the number of RETRIES: n+1 calls are granted) *)
+Theorem C18_backoff_retries_exact :
+  forall n mn mx ws k, (0 < n)%Z -> (k < List.length ws)%nat ->
+  ((exists w, nth k (backoff_run (bo_new n mn mx) ws) None = Some w) <-> (Z.of_nat k <= n)%Z).
+Proof. exact retries_exact. Qed.
+
+(* the loop over time, dial i starting at s_i, taking d_i and failing: the next dial starts between min(min,max) and
+   max + 10 % + 1ns after the failure - for every schedule of dial durations and legal jitter outcomes; hence once the node
+   (or a surviving node behind the same address) is reachable from time T on, a dial starts no later than T + D + that
+   bound, D bounding the duration of a failing dial *)
+Theorem C18_redial_gaps :
+  forall s b dws, bo_inv b -> bo_retries b = 0%Z -> legal_dials b dws = true ->
+  gaps_within (Z.min (bo_min b) (bo_max b)) (bo_max b + bo_max b / 10 + 1) (dial_starts s b dws) dws.
+Proof. exact redial_gaps. Qed.
+
+Theorem C18_redial_within :
+  forall s b dws T D, bo_inv b -> bo_retries b = 0%Z -> legal_dials b dws = true ->
+  (forall d w, In (d, w) dws -> 0 <= d <= D)%Z ->
+  (T <= last (dial_starts s b dws) s)%Z ->
+  exists t, In t (dial_starts s b dws) /\ (T <= t)%Z /\ (t = s \/ t <= T + D + (bo_max b + bo_max b / 10 + 1))%Z.
+Proof. exact redial_within. Qed.
+
+(* the hypotheses hold for the backoff Upstream.connect builds from any non-negative configuration; with the fields left
+   zero it is 100ms .. 15s, so a listener redials at the latest 16.5s (+1ns) after a failed attempt *)
+Theorem C18_connect_backoff_ok :
+  forall cmin cmax, (0 <= cmin)%Z -> (0 <= cmax)%Z ->
+  bo_inv (connect_backoff cmin cmax) /\ bo_retries (connect_backoff cmin cmax) = 0%Z /\
+  (0 < bo_min (connect_backoff cmin cmax))%Z /\ (0 < bo_max (connect_backoff cmin cmax))%Z.
+Proof. exact connect_backoff_ok. Qed.
+
+Theorem C18_connect_backoff_defaults :
+  bo_min (connect_backoff 0 0) = 100000000%Z /\ bo_max (connect_backoff 0 0) = 15000000000%Z /\
+  (bo_max (connect_backoff 0 0) + bo_max (connect_backoff 0 0) / 10 + 1 = 16500000001)%Z.
+Proof. exact connect_backoff_defaults. Qed.
+
+Example C18_ex_backoff :
+  legal_run (bo_new 0 100 1000) [100; 220; 440; 968; 1000; 1101]%Z = true /\
+  backoff_run (bo_new 0 100 1000) [100; 220; 440; 968; 1000; 1101]%Z = [Some 100; Some 220; Some 440; Some 968; Some 1000; Some 1101]%Z /\
+  legal_run (bo_new 0 100 1000) [100; 222]%Z = false /\
+  backoff_run (bo_new 2 100 1000) [100; 200; 400; 800; 1000]%Z = [Some 100; Some 200; Some 400; None; None]%Z /\
+  dial_starts 0 (bo_new 0 100 1000) [(5, 100); (7, 210); (5, 420)]%Z = [0; 105; 322; 747]%Z.
+Proof. exact ex_backoff_run. Qed.
+
 Print Assumptions C18_shutdown_withdraws.
 Print Assumptions C18_advertises_what_it_holds.
 Print Assumptions C18_cancel_before_leave.
@@ -187,3 +255,12 @@ Print Assumptions C18_refuted_pinned.
 Print Assumptions C18_recovery_partial.
 Print Assumptions C18_recovery_never_lost.
 Print Assumptions C18_ex_recovery.
+Print Assumptions C18_backoff_never_gives_up.
+Print Assumptions C18_backoff_waits_bounded.
+Print Assumptions C18_backoff_exponential.
+Print Assumptions C18_backoff_retries_exact.
+Print Assumptions C18_redial_gaps.
+Print Assumptions C18_redial_within.
+Print Assumptions C18_connect_backoff_ok.
+Print Assumptions C18_connect_backoff_defaults.
+Print Assumptions C18_ex_backoff.
